@@ -16,6 +16,9 @@ RULE = (
     'each case run in the production build with canaries and in the bounds-sanitized build'
 )
 RULE += (
+    ' Added after seeded round 10: one-process call histories mixing int / float lists and tuples and i4 / i8 / f4 / f8 arrays of varying (often non-increasing) length.'
+)
+RULE += (
     ' Added after seeded round 9: input views that are reversed, a column of a 2-D array, or a field of a record array.'
 )
 ASSUMPTIONS = [
@@ -241,6 +244,40 @@ def check(run):
         ref = off0 + np.cumsum(a.astype(np.float64))
         if not (np.array_equal(np.concatenate([o1, o2]), ref) and float(t1) == ref[n1 - 1] and float(t2) == ref[-1]):
             run.violation('cumsum-fractional-offset', dict(n1=n1, n2=n2, offset=off0, total1=float(t1), expected_total1=float(ref[n1 - 1]), total2=float(t2), expected_total2=float(ref[-1]), dtype=np.dtype(dt).str))
+    # call history: one process, consecutive calls that differ in container (list / array), element type and length -- the grid above
+    # gives every (dtype pair, N) its own child, so state carried from one call to the next (a staging buffer, a cached
+    # specialisation) is only reachable here.  Values on a 1/8 lattice: every float sum is exact.
+    r4 = run.rng(8)
+    prev = None
+    for t in range(300 if run.quick else 6000):
+        kind = ['list_int', 'list_float', 'i8', 'f8', 'f4', 'i4', 'tuple_int', 'tuple_float'][int(r4.integers(0, 8))]
+        N = int(r4.integers(1, 40)) if t % 5 else int(r4.integers(1, 4))
+        if t % 2 and prev is not None and prev[1] > 1:
+            N = int(r4.integers(1, prev[1] + 1))  # not longer than the call before: a buffer sized by that call would be reused
+        ints = r4.integers(-80, 80, N)
+        if kind in ('list_int', 'tuple_int'):
+            vals = [int(v) for v in ints]
+        elif kind in ('list_float', 'tuple_float'):
+            vals = [float(v) / 8.0 + 0.125 for v in ints]
+        elif kind[0] == 'i':
+            vals = ints.astype(kind)
+        else:
+            vals = (ints / 8.0 + 0.125).astype(kind)
+        arr = tuple(vals) if kind.startswith('tuple') else vals
+        out = np.full(N, np.nan)
+        run.ev()
+        run.nt(('history', kind, prev[0] if prev else None))
+        try:
+            tot = _cs(arr, out)
+        except Exception as e:
+            run.violation('cumsum-call-history', dict(call=t, this_call=kind, N=N, previous_call=prev, problem=f'raises {type(e).__name__}: {e}'[:200]))
+            prev = (kind, N)
+            continue
+        ref = np.cumsum(np.asarray(vals, dtype=np.float64))
+        if not (np.array_equal(out, ref) and float(tot) == ref[-1]):
+            run.violation('cumsum-call-history', dict(call=t, this_call=kind, N=N, previous_call=prev, got=out[:4].tolist(), expected=ref[:4].tolist(), total=float(tot), expected_total=float(ref[-1])))
+        prev = (kind, N)
+    run.count('history_calls', 300 if run.quick else 6000)
     # the helper as used by hod/menv.concat_to_arr (list of neighbour lists, some of them empty)
     from abacusnbody.hod import menv
 
